@@ -32,7 +32,8 @@ RULE = ('receive: 1-12 messages with 0-3 descriptors each (h arguments at top le
 STATE_MEASURE = 'distinct (descriptor counts per message, max descriptors queued ahead) tuples'
 PROBES = ['fd-of-next-message-queued-early', 'fds-of-two-later-messages-queued',
           'fd-with-last-byte', 'fd-with-first-byte', 'plain-message-between-fd-messages',
-          'index-out-of-order', 'three-descriptors', 'send-side', 'read-spans-messages']
+          'index-out-of-order', 'three-descriptors', 'send-side', 'read-spans-messages', 'undecodable-message-with-descriptors',
+          'dropped-at-undecodable-message']
 COMPONENTS = {
     'real': ['txdbus.protocol.BasicDBusProtocol (fileDescriptorReceived, rawDBusMessageReceived)',
              'txdbus.message.parseMessage / txdbus.marshal unmarshal_unix_fd',
@@ -147,6 +148,10 @@ def recv_side(ctx):
     next_fd = 1000
     prev_pos = 0
     counts = []
+    # one message may be of a type the receiver does not know (declaring and carrying its
+    # descriptors like any other): the receiver may drop the connection there or skip the
+    # message, but must never hand its descriptors to a later message
+    bad_at = ds.choose(n) if n >= 2 and ds.flag(0.2) else None
     for i in range(n):
         nfd = ds.weighted([3, 4, 2, 1.5, 0.8])
         if nfd >= 3:
@@ -169,6 +174,12 @@ def recv_side(ctx):
             f[rc.F_UNIX_FDS] = nfd
         m = rc.Msg(mt, 100 + i, f, sig, body, little=not ds.flag(0.2))
         m.encode()
+        if i == bad_at:
+            raw = bytearray(m.raw)
+            raw[1] = ds.pick([0, 5, 9, 200])
+            m.raw = bytes(raw)
+            sim.probe('undecodable-message-with-descriptors' if nfd else 'undecodable-message')
+            sim.fault('corrupt')
         start = pipe.total
         tx.write(m.raw)
         end = pipe.total
@@ -196,6 +207,7 @@ def recv_side(ctx):
     sizew = [[3, 2, 1, 3, 2, 2, 1, 2], [1, 0, 0, 0, 0, 0, 0, 0], [0, 0, 1, 0, 0, 0, 0, 0],
              [1, 3, 0.3, 3, 3, 3, 2, 1]][ds.weighted([5, 1, 1, 2])]
     max_ahead = 0
+    dropped = False
     while pipe.buf and proto.transport.state == net.OPEN:
         nbytes, bc = net.chunk_size(ds, pipe, sizew)
         if bc != 'all':
@@ -220,7 +232,19 @@ def recv_side(ctx):
         err = net.deliver(sim, pipe, nbytes)
         sim.step += 1
         if err is not None:
+            if bad_at is not None and len(record) == bad_at and pipe.base >= msgs[bad_at][3]:
+                # the undecodable message cost the connection: nothing after it is delivered
+                dropped = True
+                break
             raise Violation('C20/exception', exc_key(err), 'exception in dataReceived: %r' % (err,))
+    if dropped:
+        sim.probe('dropped-at-undecodable-message')
+        if len(record) != bad_at:
+            raise Violation('C20/count', 'after drop', '%d messages delivered, %d preceded the '
+                            'undecodable one' % (len(record), bad_at))
+        msgs = msgs[:bad_at]
+    elif bad_at is not None:
+        msgs = msgs[:bad_at] + msgs[bad_at + 1:]
     if len(record) != len(msgs):
         raise Violation('C20/count', 'messages', '%d of %d messages delivered' % (len(record), len(msgs)))
     prev_fd = False
@@ -242,7 +266,7 @@ def recv_side(ctx):
                                 'message %d argument with index %d resolved to %r; its descriptors '
                                 'are %r (descriptor belongs to message %r)' % (i, idx, val, fds, whose))
     left = getattr(proto, '_receivedFDs', None)
-    if left:
+    if left and not dropped:
         raise Violation('C20/consumed', 'left over', 'descriptors left queued at the end: %r' % (left,))
     sim.state((tuple(counts[:6]), max_ahead))
 
